@@ -29,7 +29,8 @@ Order == <<"panic", "stream-count", "unknown-op", "length", "set_content", "set_
            "compress.lossy", "decompress.failed", "decompress.content", "untouched-stream-changed",
            "decompressed_content", "get_plain_content",
            "png.encode_row", "png.encode-avg", "indirect.filter", "indirect.filter-elem", "indirect.parms", "indirect.parms-elem",
-           "indirect.value", "filter.empty-array", "compress.stale-decodeparms", "decodeparms.array", "png.avg">>
+           "indirect.value", "doc-decompress.content", "get_page_content", "doc-indirect.filter", "doc-indirect.filter-elem",
+           "doc-indirect.parms", "doc-indirect.parms-elem", "doc-indirect.value", "filter.empty-array", "compress.stale-decodeparms", "decodeparms.array", "png.avg">>
 First(bad) == Order[CHOOSE k \in 1..Len(Order) : Order[k] \in bad /\ \A j \in 1..(k - 1) : Order[j] \notin bad]
 
 \* a decode result [ok, data] that should be View(s): "" when it agrees, else the class / clause
@@ -43,7 +44,12 @@ PlainIssue(s, r) ==
     IF s.filters = <<>> THEN (IF r.ok /\ r.data = s.content THEN "" ELSE "get_plain_content")
     ELSE DecodeIssue(s, r, "get_plain_content")
 
-QueryIssues(s, j) == {DecodeIssue(s, j.dc, "decompressed_content"), PlainIssue(s, j.gp)}
+\* Document::get_page_content with the stream as the content of a page (logged as field pc of the state)
+DocReadIssues(s, j) ==
+    {IF DocReadAgrees(s, j.pc) THEN ""
+     ELSE IF s.ind # "none" /\ j.pc.data = Append(s.content, 10) THEN "doc-indirect." \o s.ind ELSE "get_page_content"}
+
+QueryIssues(s, j) == {DecodeIssue(s, j.dc, "decompressed_content"), PlainIssue(s, j.gp)} \cup DocReadIssues(s, j)
 
 CompressIssues(pre, post) ==
     {IF LengthOK(post) THEN "" ELSE "length",
@@ -59,6 +65,15 @@ DecompressIssues(pre, post, res) ==
           IN IF ks # {} THEN First(ks)
              ELSE IF res # "ok" THEN "decompress.failed" ELSE "decompress.content"}
 
+\* Document::decompress holds the referenced objects: references resolved, then the Stream contract.  Class
+\* doc-indirect.<entry>: the stream with an entry written as a reference is left exactly as it was.
+DocDecompressIssues(pre, post) ==
+    IF pre.ind = "none" THEN DecompressIssues(pre, post, "ok")
+    ELSE {IF LengthOK(post) THEN "" ELSE "length",
+          IF DocDecompressOK(pre, [post EXCEPT !.length = Len(post.content)]) THEN ""
+          ELSE IF post = pre THEN "doc-indirect." \o pre.ind ELSE "doc-decompress.content"}
+
+
 \* issues of stream i for record rec (pre = carried state)
 StreamIssues(pre, rec, i) ==
     LET post == StateOf(rec.post[i])
@@ -69,7 +84,8 @@ StreamIssues(pre, rec, i) ==
             CASE rec.op = "set_content"       -> {IF SetContentOK(pre[i], rec.arg, post) THEN "" ELSE "set_content"}
               [] rec.op = "set_plain_content" -> {IF SetPlainOK(pre[i], rec.arg, post) THEN "" ELSE "set_plain_content"}
               [] rec.op \in {"compress", "doc_compress"}     -> CompressIssues(pre[i], post)
-              [] rec.op \in {"decompress", "doc_decompress"} -> DecompressIssues(pre[i], post, rec.res)
+              [] rec.op = "decompress" -> DecompressIssues(pre[i], post, rec.res)
+              [] rec.op = "doc_decompress" -> DocDecompressIssues(pre[i], post)
               [] OTHER -> {"unknown-op"}
 
 ImplPost(pre, rec, i) ==
